@@ -1,3 +1,4 @@
+import json
 import math
 from typing import Any
 from xml.etree.ElementTree import QName
@@ -24,6 +25,6 @@ def literal_value(value: Any) -> str:
         return str(value) if math.isfinite(value) else f'float("{value}")'
 
     if isinstance(value, QName):
-        return f'QName("{value.text}")'
+        return f"QName({json.dumps(value.text, ensure_ascii=False)})"
 
     return repr(value)
